@@ -27,12 +27,13 @@ VARIABLES l,      \* index of the next trace line to consume
           bad,    \* set of <<line, reason>> the specification rejects
           nchk,   \* number of events whose result was actually compared
           nundef, \* number of events outside the modelled domain (no verdict)
-          shas    \* [format -> digest] of the output calls since the last state change
-vars == <<l, docs, par, live, bad, nchk, nundef, shas>>
+          shas,   \* [format -> digest] of the output calls since the last state change
+          firsts  \* [input key -> <<ok, digest>>] of the first run of every input (C09)
+vars == <<l, docs, par, live, bad, nchk, nundef, shas, firsts>>
 
 Ev == Trace[l]
 IsEvent(n) == l <= Len(Trace) /\ Trace[l].ev = n
-Advance == l' = l + 1
+Advance == l' = l + 1 /\ (IF l <= Len(Trace) /\ Trace[l].ev = "Repeat" THEN TRUE ELSE UNCHANGED firsts)
 Keep == UNCHANGED <<docs, par, live>>
 ShaOf(e) == IF "sha" \in DOMAIN e THEN e.sha ELSE ""
 
@@ -79,7 +80,7 @@ EnvOf(e) == IF "env" \in DOMAIN e THEN e.env ELSE <<>>
 CodecOf(e) == IF "codec" \in DOMAIN e THEN e.codec ELSE <<>>
 
 TInit == /\ l = 2 /\ docs = <<>> /\ par = <<>> /\ live = "ok" /\ bad = {} /\ nchk = 0 /\ nundef = 0
-         /\ shas = <<>>
+         /\ shas = <<>> /\ firsts = <<>>
 
 (* a new Parser *)
 TReset ==
@@ -159,6 +160,31 @@ TRun ==
               ELSE ""
      IN Verdict(j)
 
+(* one run of the wrapper: observed = whether the wrapped program ran and    *)
+(* its argument vector (untouched arguments byte for byte; substituted ones  *)
+(* as the documents an independent decoder reads from the substituted file)  *)
+TWrap ==
+  /\ IsEvent("Wrap") /\ Advance /\ Keep /\ UNCHANGED shas
+  /\ LET e == Ev
+         w == WrapOp(FsOfEvent(e), e.cwd, e.args, EnvOf(e))
+         j == IF w.undef THEN "undef"
+              ELSE IF w.exec /\ ~e.exec THEN "the wrapped program was not run"
+              ELSE IF ~w.exec /\ e.exec THEN "the wrapped program was run although a file argument failed to evaluate"
+              ELSE IF ~w.exec THEN ""
+              ELSE IF Len(e.argv) # Len(e.args) THEN "argument count changed"
+              ELSE IF \E i \in DOMAIN e.args :
+                        w.argv[i].kind = "same" /\ ~(e.argv[i].kind = "same" /\ e.argv[i].value = e.args[i])
+                   THEN "an argument that is not a bkl file was changed"
+              ELSE IF \E i \in DOMAIN e.args : w.argv[i].kind = "file" /\ e.argv[i].kind # "file"
+                   THEN "a bkl file argument was not substituted"
+              ELSE IF \E i \in DOMAIN e.args : w.argv[i].kind = "file" /\
+                        ~(e.argv[i].decoded /\ e.argv[i].docs = w.argv[i].outs)
+                   THEN "the substituted file does not hold the evaluated layers in the format of the named extension"
+              ELSE IF \E i \in DOMAIN e.args : w.argv[i].kind = "file" /\ ~e.argv[i].nameKeepsExt
+                   THEN "the substituted file name does not keep the argument's extension"
+              ELSE ""
+     IN Verdict(j)
+
 (* one process: the termination protocol of every tool (C08) *)
 TProc ==
   /\ IsEvent("Proc") /\ Advance /\ Keep /\ UNCHANGED shas
@@ -168,15 +194,28 @@ TProc ==
              ELSE IF Ev.exit # 0 /\ ~Ev.stdoutEmpty THEN "output on stdout although the tool failed"
              ELSE "failure without a diagnostic on stderr")
 
+(* C09: a later run of the same input (same files, flags, environment) must *)
+(* have the same success status and byte-identical output as the first one  *)
+TRepeat ==
+  /\ IsEvent("Repeat") /\ Advance /\ Keep /\ UNCHANGED shas
+  /\ LET e == Ev IN
+     IF e.key \notin DOMAIN firsts
+     THEN /\ firsts' = [x \in (DOMAIN firsts) \cup {e.key} |-> IF x = e.key THEN <<e.ok, e.sha>> ELSE firsts[x]]
+          /\ Verdict("")
+     ELSE /\ UNCHANGED firsts
+          /\ Verdict(IF firsts[e.key] = <<e.ok, e.sha>> THEN ""
+                     ELSE IF firsts[e.key][1] # e.ok THEN "success status differs between runs of the same input (" \o e.mode \o ")"
+                     ELSE "output bytes differ between runs of the same input (" \o e.mode \o ")")
+
 TDone ==
   /\ l = Len(Trace) + 1
   /\ JsonSerialize("result.json",
         [l |-> l + 1, nchk |-> nchk, undef |-> nundef,
          bad |-> LET q == SetToSeq(bad) IN [i \in DOMAIN q |-> [line |-> q[i][1], why |-> q[i][2]]]])
   /\ l' = l + 1
-  /\ UNCHANGED <<docs, par, live, bad, nchk, nundef, shas>>
+  /\ UNCHANGED <<docs, par, live, bad, nchk, nundef, shas, firsts>>
 
-TNext == TReset \/ TSkip \/ TMergeDocument \/ TDocuments \/ TOutput \/ TEval \/ TRun \/ TProc \/ TDone
+TNext == TReset \/ TSkip \/ TMergeDocument \/ TDocuments \/ TOutput \/ TEval \/ TRun \/ TProc \/ TRepeat \/ TWrap \/ TDone
 TSpec == TInit /\ [][TNext]_vars
 
 (* every line is consumed by exactly one action *)
